@@ -234,6 +234,26 @@ fn run_variants(args: &Args) {
                 }
             }
         }
+        // every combination of castling rights and en-passant file on the same board and side (16 x 9 state
+        // bytes): their hashes must be pairwise distinct (a multi-feature difference inside one key class)
+        let mut sweep = vec![];
+        for rights in 0..16 {
+            let mut c = String::new();
+            for (bit, ch) in [(1, 'K'), (2, 'Q'), (4, 'k'), (8, 'q')] {
+                if rights & bit != 0 {
+                    c.push(ch);
+                }
+            }
+            if c.is_empty() {
+                c.push('-');
+            }
+            for ep in 0..9 {
+                let e = if ep == 8 { "-".to_string() } else { format!("{}{}", (b'a' + ep as u8) as char, rank) };
+                let fen = rest(&f[0], &f[1], &c, &e);
+                sweep.push(json!([c, e, hash_of(&fen)]));
+            }
+        }
+        emit(&mut out, json!({"ev": "states", "base": obs::chars(base), "list": sweep}));
         for v in variants {
             let hv = hash_of(&v);
             emit(&mut out, json!({"ev": "var", "base": obs::chars(base), "var": obs::chars(&v), "b": hb, "v": hv}));
